@@ -142,7 +142,8 @@ class TypedTuple(ABC):
             atype = kwargs['atype']
             aval = kwargs['aval']
         elif 'fromstring' in kwargs:
-            atype, aval = kwargs['fromstring'].strip().split(self.LABEL_SEPARATOR, 1)
+            # blanks before the type are dropped; what follows the separator is the value, blanks included
+            atype, aval = kwargs['fromstring'].lstrip().split(self.LABEL_SEPARATOR, 1)
 
         if self.lv.validate_type(self.category, atype):
             self.type = atype
